@@ -84,6 +84,18 @@ def make_files():
         # > 64 KiB: the seekable open hops back CHUNKSIZE and has to hunt for a page boundary in the middle of the file
         'BIG': [vlib.mkzoo('c10_BIG', rate=44100, ch=2, n=110000, q=0.7, sig='noise', serial=90, pages='natural', tag='BIG')],
     }
+    # chains whose links carry serial numbers with bit 31 set (the library stores serials sign-extended in longs):
+    # first / middle / last / all links; 0x80000000, 0x9abcdef1, 0xffffffff
+    def hl(pos, serial):
+        s32 = serial - (1 << 32) if serial >= (1 << 31) else serial        # mkzoo parses a signed long; libogg keeps the low 32 bits
+        kw = [dict(rate=8000, ch=1, n=400, q=0.3, sig='mix', pages='2'), dict(rate=11025, ch=2, n=300, q=0.2, sig='sine', pages='flush'),
+              dict(rate=8000, ch=1, n=350, q=0.3, sig='sine', pages='natural')][pos]
+        return vlib.mkzoo('c10_H%d_%08x' % (pos, serial), serial=s32, tag='H%d' % pos, **kw)
+    HI = (0x80000000, 0x9abcdef1, 0xffffffff)
+    recipe['Hfirst'] = [hl(0, HI[1]), hl(1, 201), hl(2, 202)]
+    recipe['Hmid'] = [hl(0, 200), hl(1, HI[0]), hl(2, 202)]
+    recipe['Hlast'] = [hl(0, 200), hl(1, 201), hl(2, HI[2])]
+    recipe['Hall'] = [hl(0, HI[0]), hl(1, HI[1]), hl(2, HI[2])]
     out = {}
     for name, links in recipe.items():
         data = b''.join(open(p, 'rb').read() for p, _ in links)
@@ -256,7 +268,7 @@ def run(tier):
     chk = vlib.Check(PID, tier, 'fault_enumeration')
     thorough = tier == 'thorough'
     # internal deadline (seconds); C10_DEADLINE_S overrides it for measurement runs on an overloaded machine
-    deadline = chk.t0 + float(os.environ.get('C10_DEADLINE_S') or (140 if not thorough else 19 * 60))
+    deadline = chk.t0 + float(os.environ.get('C10_DEADLINE_S') or (165 if not thorough else 19 * 60))
     vlib.build('plain')
     exe = private_exe()
     files = make_files()
@@ -284,6 +296,22 @@ def run(tier):
     # ---- phase 0: default schedule, every path / api (anchors the whole comparison)
     c0 = [R.case(f, p, a, 'c4096' if a == 'f' else 'b4096', 0, []) for f in files for (p, a) in (('s', 'f'), ('n', 'f'), ('p', 'f'), ('s', 'i'), ('n', 'i'), ('s', 'g'), ('n', 'g'), ('s', 'k'), ('n', 'k'))]
     phase('default', 'default', c0, 'd', 1000)
+
+    # ---- phase 0b: chains with serial numbers >= 2^31 (early, so that a deadline never cuts it): caps subset, every request schedule / api,
+    #      every 1-cut around the link boundaries (thorough: every 1-cut), every path
+    HF = [f for f in files if f.startswith('H')]
+    ch = []
+    for f in HF:
+        for p in PATHS:
+            ch += [R.case(f, p, 'f', 'c4096', c, []) for c in CAPS_SMALL[1:]]
+        ch += [R.case(f, p, a_, q, c, []) for (p, a_, q) in combos() for c in (0, 3)]
+        for p in PATHS:
+            if thorough:
+                ch += rows(R, f, p, 'f', 'c4096', 0, [], 1, files[f]['len'])
+            else:
+                for bnd in files[f]['bounds'][1:]:
+                    ch += rows(R, f, p, 'f', 'c4096', 0, [], bnd - 40, bnd + 70)
+    phase('hiserial', 'hiserial', ch, 'h', 400)
 
     # ---- phase 1: every uniform cap x path x file (default request length)
     big = ['F1', 'F2', 'S2']
@@ -449,6 +477,11 @@ def run(tier):
             for p in PATHS:
                 g = G.get(('initial', f, p), {})
                 chk.guard(g.get('ini', 0) >= 0.9 * g.get('n', 1) and g.get('n', 0) >= 20, f'opens with a non-empty initial buffer ran and passed on {f}/{p} ({g.get("ini")}/{g.get("n")})')
+    if complete.get('hiserial'):
+        for f in HF:
+            for p in PATHS:
+                g = G.get(('hiserial', f, p), {})
+                chk.guard(g.get('n', 0) >= 200, f'chain {f} with serial numbers >= 2^31 decoded via path {p} ({g.get("n")} executions)')
     chk.guard(sum(g['n'] for g in G.values()) == chk.cov['evaluations'], 'every execution attributed to a (phase, file, path) group')
 
     per_group = {f'{ph}:{f}:{p}': {'executions': g['n'], 'deviation_applied': g['hit'], 'failing': g['bad']} for (ph, f, p), g in sorted(G.items())}
@@ -456,7 +489,7 @@ def run(tier):
         'distinct_nontrivial': len(R.logs) + R.rowD,
         'rule': 'DEV enumeration of read-callback answers: default = full answer; deviations = uniform cap c (every c in 1..2048, 4096, 65536) or cuts (read stops at absolute offset b; every b in 1..len-1; '
                 '2-cut pairs: all pairs inside the listed windows' + (' and ALL pairs b1<b2 of file S' if thorough else '') + '; hand-over of the first k bytes through initial/ibytes with the source positioned after them: k over a boundary set on every file and every k on the small files, also x every 1-cut of S) x access path {seekable vorbisfile, streaming vorbisfile, packet API} x request-length schedules '
-                f'(ov_read_float {REQ_F}, ov_read {REQ_I}, ov_read_filter with a gain-0.5 / an identity filter {REQ_G} [bytes]); files F1 (1 link), F2 (3 links 1ch/2ch/1ch, 8k/11.025k/44.1k), S2 (2 links 1ch/2ch), S (1 link, smallest), BIG (1 link > 64 KiB: caps, and 1-cuts only around the landing point of the open-time backward hop, seekable path). '
+                f'(ov_read_float {REQ_F}, ov_read {REQ_I}, ov_read_filter with a gain-0.5 / an identity filter {REQ_G} [bytes]); files F1 (1 link), F2 (3 links 1ch/2ch/1ch, 8k/11.025k/44.1k), S2 (2 links 1ch/2ch), S (1 link, smallest), Hfirst/Hmid/Hlast/Hall (3-link chains 1ch/2ch/1ch whose first / middle / last / every link has a serial number with bit 31 set: 0x80000000, 0x9abcdef1, 0xffffffff; caps subset, every request schedule, 1-cuts around the link boundaries), BIG (1 link > 64 KiB: caps, and 1-cuts only around the landing point of the open-time backward hop, seekable path). '
                 'distinct_nontrivial = number of distinct (file, path, api, request schedule, hash of the complete callback log) among single cases in which a deviation actually shortened a read, '
                 'plus, for row cases (one execution per value of the last cut), the number of distinct callback logs within each row among executions where every cut shortened a read (rows differ in file/path/schedule/first cut)',
         'samples': [{'case': s, 'format': '<file> <path s|n|p> <api f|i> <request schedule> <cap> <ncut> <cuts..>'} for s in R.samples[:12]],
